@@ -190,6 +190,24 @@ def lifecycle(spec, log):
         if spec.get('expect_point') and spec.get('inject_action') == 'pause':
             open(os.path.join(d, 'resume'), 'w').close()
         via = spec.get('observe_via', 'wait')
+        obs = []
+        if via == 'mixed':
+            # the usual polling idiom: short timed waits mixed with is_alive(); the very first moment death is
+            # reported (either way) is observed at once, before anything else could complete the picture
+            t0p = time.monotonic()
+            seen = None
+            while time.monotonic() - t0p < spec.get('wait_timeout', 20):
+                r = bounded('poll_wait', lambda: w.wait(0.05), 15)
+                if r is True or r is HANG or isinstance(r, Raised):
+                    seen = 'wait'
+                    break
+                r = bounded('poll_is_alive', lambda: w.is_alive(), 15)
+                if r is False or r is HANG or isinstance(r, Raised):
+                    seen = 'is_alive'
+                    break
+            log.ev('polled', last=seen)
+            if seen and r in (True, False):
+                obs.append(observe(w, bounded, 'o0'))
         if via == 'poll':
             # death is first observed by polling is_alive() - no wait() in progress while the child runs
             t0p = time.monotonic()
@@ -213,7 +231,6 @@ def lifecycle(spec, log):
             time.sleep(0.1)
         dead = bounded('wait', lambda: w.wait(spec.get('wait_timeout', 20)), spec.get('wait_timeout', 20) + 30)
         log.ev('death', dead=(dead is True), pid_running=(pid_running(wid[1]) if wid[1] != os.getpid() else None))
-        obs = []
         if dead is True and spec.get('state_probe'):
             # read user_state FIRST (before any other accessor could synchronise it as a side effect)
             log.ev('state_first', value=enc(w.user_state))
